@@ -383,6 +383,6 @@ def describe(tier):
         "variable, set_of([x, x.kid])); identity-eq and value-eq dataclasses; quick = core set + seeded slice, thorough = all; "
         "non-trivial = >= 2 feasible paths and a non-empty result on some path",
         bounds=dict(objects_per_domain="0..%d (symbolic)" % N, attribute_values_and_literals="unbounded integers", depth="<= 3", variables="<= 3 + quantified"),
-        outside=["strings/floats as attribute values", "== between two collections", "attribute access on None", "more than %d objects per domain" % N],
+        outside=["quantifying over an expression of a SELECTED variable (for_all(flatten(x.items), ...) with x selected): the engine quantifies the variables of the quantified expression universally, as the repository's own tests use it (for_all(cabinets.container, ...)); the per-x reading gives other rows and the property does not say which is meant", "strings/floats as attribute values", "== between two collections", "attribute access on None", "more than %d objects per domain" % N],
         assumptions=["unselected free variables are read existentially (property statement)", "result order is not asserted"],
     )
